@@ -1988,9 +1988,9 @@ theorem getResponse_prov {A : Nat → Attempt → Prop} {s s' : State} {c k rid 
           · exact Or.inr ⟨cn', hcn, rfl, rfl⟩
       split
       · obtain ⟨f1, f2, f3⟩ := connClose_fields_nopending s2 c cn hc2 hpend
-        refine key _ (hp2.connClose cn hc2 hpend) (by rw [f1]; exact hr2) ?_
+        refine key _ ((hp2.connClose cn hc2 hpend).setConn _) (by show (connClose s2 c).resps[_]? = _; rw [f1]; exact hr2) ?_
         intro cn' hcn'
-        exact Or.inl (connClose_sock_none _ _ _ hcn')
+        exact Or.inl (setConn_connClose_sock_none _ _ _ _ hcn')
       · exact key _ hp2 hr2 (fun cn' hcn' => by rw [hc2] at hcn'; cases hcn'; exact Or.inr rfl)
     | ok hd =>
       -- what the head parser found
@@ -2375,8 +2375,21 @@ def makeTail (s : State) (c rid : Nat) (rc : ReqCfg) (ek : Except Exc Nat) : Sta
   | .ok k =>
     match getResponse s c k rid rc with
     | (s, .exc e) => (s, .exc (translateRecv e))
-    | (s, .resp r) =>
-      (setResp s r fun x => { x with conn := if rc.release then none else some c, hasPool := true }, .resp r)
+    | (s, .resp r) => attachResp s c r rc
+
+theorem attachResp_prov {A : Nat → Attempt → Prop} {s : State} (c r : Nat) (rc : ReqCfg) (p : Prov A s) :
+    Prov A (attachResp s c r rc).1 := by
+  have p1 := (setResp_safe s r (fun x => { x with conn := if rc.release then none else some c, hasPool := true })
+    (fun x => ⟨rfl, rfl, rfl, Or.inr ⟨rfl, rfl, rfl⟩⟩)).prov p
+  unfold attachResp
+  generalize (setResp s r fun x => { x with conn := if rc.release then none else some c, hasPool := true }) = t at p1
+  dsimp only
+  split
+  · have p2 := (releaseConn_safe t r).prov p1
+    generalize releaseConn t r = q at p2
+    obtain ⟨t2, o⟩ := q
+    cases o <;> exact p2
+  · exact p1
 
 theorem makeRequest_eq (s : State) (c rid : Nat) (a : Attempt) (rc : ReqCfg) :
     makeRequest s c rid a rc =
@@ -2408,10 +2421,10 @@ theorem makeRequest_spec {A : Nat → Attempt → Prop} {s s' : State} {c rid : 
       cases ht
       exact ⟨(by intro r hr; cases hr), fun _ _ => ⟨(connClose_safe _ _).prov p2, Or.inl p2⟩⟩
     | resp r =>
-      cases ht
-      refine ⟨fun _ _ => ?_, by intro e he; cases he⟩
-      exact (setResp_safe s2 r (fun x => { x with conn := if rc.release then none else some c, hasPool := true })
-        (fun x => ⟨rfl, rfl, rfl, Or.inr ⟨rfl, rfl, rfl⟩⟩)).prov p2
+      dsimp only at ht
+      have p3 := attachResp_prov c r rc p2
+      rw [ht] at p3
+      exact ⟨fun _ _ => p3, fun _ _ => ⟨(connClose_safe _ _).prov p3, Or.inl p3⟩⟩
   cases ek with
   | ok k =>
     obtain ⟨hst, cn, hc, hk, hcase⟩ := spK k rfl
